@@ -876,12 +876,12 @@ impl<'ascent, 'grammar, W: Write>
             }
             rust!(self.out, "let {p}end = {p}start.clone();", p = self.prefix);
         } else {
-            // this only occurs in the start state
+            // this only occurs in the start state: nothing has been pushed yet, so take
+            // the start of the lookahead, like the table-driven parser does
             rust!(
                 self.out,
-                "let {}start: {} = Default::default();",
-                self.prefix,
-                loc_type,
+                "let {p}start: {loc_type} = {p}lookahead.as_ref().map(|o| o.0.clone()).unwrap_or_default();",
+                p = self.prefix,
             );
             rust!(self.out, "let {p}end = {p}start.clone();", p = self.prefix);
         }
